@@ -10,7 +10,7 @@ Property on the real code (every case): the REAL lowered tree is abstracted into
 driver explores all oracles (branch choices / trip counts 0..B for the first D queries) — every trace
 must be Dyck; region names of the lowered code must be pairwise distinct unless user-supplied.
 Thorough tier: the instrumented Fortran is compiled with gfortran against a checking PSyData stub
-library and run on 16 input sets.
+library and run on 16 input sets (a seeded sample of ~8% of the accepted cases, at most 250).
 
 The model is in FIXED mode (fixes/C28-exit-in-region.patch)."""
 import contextlib
@@ -155,7 +155,7 @@ def prepare(case, ids_by_case, tier):
         case.real["after"] = sx(G.abs_sched(routine, ids))
         case.real["auto_flags"] = [n.region_name is None for n in routine.walk(PSyDataNode)]
         names = []
-        low, text = lowered(psyir, routine.name, tier == "thorough")
+        low, text = lowered(psyir, routine.name, False)
         case.real["lowered"] = sx(G.abs_sched(low, ids, names))
         case.real["names"] = names
         case.real["fortran"] = text
@@ -224,6 +224,8 @@ def judge(chk, case, out, ids, gf, stats):
             if len(set(auto)) != len(auto):
                 viol = dict(case.payload(), kind="failing-input", observed={"names": real["names"]},
                             expected="regions without user-supplied name get pairwise distinct names")
+        if viol is None and gf is not None and stats["gf_budget"] > 0 and chk.rng.random() < 0.08:
+            real["fortran"] = real["fortran"] or fortran_of(case)
         if viol is None and gf is not None and real["fortran"] and stats["gf_budget"] > 0:
             stats["gf_budget"] -= 1
             res = gf.run(real["fortran"])
@@ -451,7 +453,7 @@ def run(chk):
     if chk.tier == "thorough":
         try:
             gf = G.Gfortran()
-            stats["gf_budget"] = 400
+            stats["gf_budget"] = 250
         except Exception as err:  # pylint: disable=broad-except
             raise common.Infra(str(err))
     try:
@@ -466,7 +468,7 @@ def run(chk):
 
 
 def _run(chk, stats, gf):
-    nprog = 30 if chk.tier == "thorough" else 9
+    nprog = 24 if chk.tier == "thorough" else 9
     cases = list(corpus_cases())
     feats = {}
     for p in range(nprog):
